@@ -72,6 +72,8 @@ func (r *chunkReader) Read(p []byte) (int, error) {
 		n = len(r.data)
 	}
 	if n > len(p) {
+		// the caller's buffer is smaller than the prescribed segment: deliver what fits now, the rest of this segment next
+		r.cuts = append([]int{n - len(p)}, r.cuts...)
 		n = len(p)
 	}
 	copy(p, r.data[:n])
